@@ -41,9 +41,12 @@ unjnum = Function("unjnum", Json, REAL)
 str_le = Function("str_le", Str, Str, BOOL)  # A4: uninterpreted total order
 
 
+EXTRA_AXIOMS = []     # definitions of specification functions, registered by contract modules
+
+
 def base_axioms():
-    """A4 axioms: literal distinctness, dec injective, digit counts."""
-    ax = []
+    """A4 axioms: literal distinctness, dec injective, digit counts; spec-function definitions."""
+    ax = list(EXTRA_AXIOMS)
     lits = list(_str_consts.values()) + [EMPTY]
     if len(lits) > 1:
         ax.append(z3.Distinct(*lits))
